@@ -1,0 +1,59 @@
+//go:build verif
+
+package hkdf
+
+// Contracts for govc (/verif). Comments only.
+
+// cnt: number of the next block to generate, 1..256 (the byte wraps to 0
+// after block 255 has been generated).
+//@ pred cnt(f) = ite(f.counter == 0, 256, f.counter)
+
+// rem: bytes of the RFC 5869 stream that are still available.
+//@ pred rem(f) = len(f.buf) + (256 - cnt(f)) * f.size
+
+// Representation invariant of a reader.
+//@ pred rinv(f) = f.expander != nil && f.size == spec.hsize(f.expander) && len(f.buf) <= f.size && implies(f.counter == 1, len(f.buf) == 0) && implies(f.counter != 1, len(f.prev) == f.size && sameobj(f.buf, f.prev) && off(f.buf) + len(f.buf) == off(f.prev) + f.size)
+
+//@ func (*hkdfReader).Read
+//@ props C18
+//@ requires rinv(f)
+//@ requires ref(p) != ref(f.prev) && ref(p) != ref(f.info)
+//@ replay_import crypto/hmac
+//@ replay_import crypto/sha256
+//@ replay_field expander = hmac.New(sha256.New, []byte{1})
+//@ replay_assume f.size == 32
+//@ modifies f.counter
+//@ modifies f.prev
+//@ modifies f.buf
+//@ modifies p[0:len(p)]
+// a Read that would exceed the limit fails without consuming output
+//@ ensures iff(result1 != nil, old(rem(f)) < len(p))
+//@ ensures implies(result1 != nil, result0 == 0 && f.counter == old(f.counter) && f.buf == old(f.buf) && f.prev == old(f.prev))
+// otherwise it delivers exactly len(p) bytes and advances the stream by that much
+//@ ensures implies(result1 == nil, result0 == len(p) && rem(f) == old(rem(f)) - len(p))
+//@ ensures implies(result1 == nil, rinv(f))
+//@ ensures f.size == old(f.size) && f.expander == old(f.expander)
+// the output starts with the buffered rest of the previous block ...
+//@ ensures implies(result1 == nil, forall(i, 0, min(len(p), old(len(f.buf))), p[i] == old(f.buf[i])))
+// ... and, when new blocks were generated, ends with the consumed part of the last one; the unconsumed part is what stays buffered
+//@ ensures implies(result1 == nil && len(p) > old(len(f.buf)), forall(i, 0, f.size - len(f.buf), p[len(p) - (f.size - len(f.buf)) + i] == f.prev[i]))
+//@ loop 1 invariant sameobj(p, entry(p)) && off(p) + len(p) == off(entry(p)) + len(entry(p)) && len(p) <= len(entry(p))
+//@ loop 1 invariant 0 <= n && n <= len(f.buf) && implies(len(p) > 0, n == len(f.buf))
+//@ loop 1 invariant len(f.buf) - n + (256 - cnt(f)) * f.size == before(rem(f)) - (len(entry(p)) - len(p))
+//@ loop 1 invariant f.size == spec.hsize(f.expander) && f.expander != nil && len(f.buf) <= f.size
+//@ loop 1 invariant implies(f.counter == 1, len(f.buf) == 0)
+//@ loop 1 invariant implies(f.counter != 1, len(f.prev) == f.size && sameobj(f.buf, f.prev) && off(f.buf) + len(f.buf) == off(f.prev) + f.size)
+//@ loop 1 invariant ref(p) != ref(f.prev)
+//@ loop 1 invariant forall(i, 0, min(len(entry(p)), before(len(f.buf))), entry(p)[i] == before(f.buf[i]))
+//@ loop 1 invariant implies(f.counter != before(f.counter), forall(i, 0, n, entry(p)[len(entry(p)) - len(p) - n + i] == f.prev[i]))
+//@ loop 1 invariant implies(f.counter == before(f.counter), n == min(len(entry(p)), before(len(f.buf))) && len(entry(p)) - len(p) == n && f.buf == before(f.buf))
+//@ loop 1 invariant implies(f.counter != before(f.counter), len(entry(p)) - len(p) >= before(len(f.buf)) + n && len(f.buf) == f.size)
+//@ canary ensures result1 == nil
+
+// A new reader stands at the start of the stream: exactly 255*HashLen bytes are available.
+//@ func Expand
+//@ props C18
+//@ ensures typeis(result, "*golang.org/x/crypto/hkdf.hkdfReader")
+//@ ensures rinv(result.(*hkdfReader)) && result.(*hkdfReader).counter == 1
+//@ ensures rem(result.(*hkdfReader)) == 255 * spec.hashsize(hash)
+//@ canary ensures rem(result.(*hkdfReader)) == 256 * spec.hashsize(hash)
